@@ -1333,6 +1333,28 @@ func corpus() []History {
 		// (2,0); (2,0) spent in 3, (4,0) spent in 5
 		{Name: "reused-script-later-spend", Chain: chainD(), Tip0: 6, Ops: []Op{
 			enq(2, 0, 1), opStart, opStep, opStep, enq(4, 0, 2), opRun}},
+		// 12..16: progress (C10_deferred_request_answered).
+		// 12: a request deferred into nextBatch, then the running batch
+		// fails: the deferred request is served by the next batch
+		{Name: "deferred-then-failed-batch", Chain: chainB(), Tip0: 5, Ops: []Op{
+			enq(2, 1, 1), opStart, until(3, 3), enq(4, 0, 2), until(3, 4), opStepFail, opRun}},
+		// 13: a request queued above the scan position survives a failed
+		// batch and is served by the next one, which starts at its height
+		{Name: "queued-above-failed-batch", Chain: chainB(), Tip0: 5, Ops: []Op{
+			enq(2, 1, 1), enq(9, 0, 4), opStart, until(2, 2), opStepFail, opRun}},
+		// 14: the tip lookup after the scanned range fails: everybody in
+		// the reporter gets the error
+		{Name: "post-scan-tip-lookup-fails", Chain: chainB(), Tip0: 5, Ops: []Op{
+			enq(2, 1, 1), enq(4, 0, 2), opStart, opStep, until(1, 0), opStepFail, opRun}},
+		// 15: the first tip lookup of a batch fails twice: the batch
+		// manager retries, the request is served by the third attempt
+		{Name: "first-tip-lookup-fails-twice", Chain: chainB(), Tip0: 5, Ops: []Op{
+			enq(2, 1, 1), opStart, opStepFail, opStepFail, opRun}},
+		// 16: requests with ever lower start heights arrive while a batch
+		// runs: none extends the running batch, the next batch serves all
+		{Name: "lower-arrivals-do-not-extend-batch", Chain: chainB(), Tip0: 5, Ops: []Op{
+			enq(9, 0, 4), opStart, until(2, 4), enq(6, 1, 3), opStep, enq(4, 0, 2), opStep,
+			enq(2, 1, 1), opStep, enq(2, 0, 1), opRun}},
 	}
 }
 
